@@ -32,6 +32,7 @@ type fpShape struct {
 	dirSh     bool   // with dirAttr: the task also has a dynamic variable, a precondition and a status check (commands that read-only modes still run)
 	selfEdit  bool   // the command rewrites a matched source (src/made.txt: orig -> made) while it runs
 	condLabel bool   // label: 'build{{if .TARGET}}-{{.TARGET}}{{end}}' (equals the task name unless TARGET is given)
+	guardCall bool   // the task calls another task whose precondition holds only while the (real) run is in progress
 	deferCmd  bool   // the task has a deferred shell command that writes a file
 	global    string // top-level method: differing from the task's own
 	broken    bool   // the Taskfile also has a task that cannot be compiled (for over a non-list var)
@@ -71,6 +72,9 @@ func fpBody(tag string, sh fpShape) string {
 		}
 	} else {
 		lines = append(lines, "      - 'true'")
+	}
+	if sh.guardCall {
+		lines = append(lines, "      - 'touch {{.ROOT_DIR}}/marker'", "      - task: guarded", "      - 'rm -f {{.ROOT_DIR}}/marker'")
 	}
 	lines = append(lines,
 		"      - 'if [ \"$KILL_AT\" = \"2\" ]; then kill -9 $$; fi; if [ \"$FAIL_AT\" = \"2\" ]; then exit 3; fi'",
@@ -129,6 +133,9 @@ func (sh fpShape) files() map[string]string {
 	}
 	if sh.global != "" {
 		files["Taskfile.yml"] = strings.Replace(files["Taskfile.yml"], "version: '3'\n", "version: '3'\nmethod: "+sh.global+"\n", 1)
+	}
+	if sh.guardCall {
+		files["Taskfile.yml"] += "  guarded:\n    preconditions:\n      - 'test -f {{.ROOT_DIR}}/marker'\n    cmds:\n      - 'true'\n"
 	}
 	if sh.broken {
 		files["Taskfile.yml"] += "  broken:\n    vars: {N: 42}\n    cmds:\n      - for: {var: N}\n        cmd: echo {{.ITEM}}\n"
@@ -627,7 +634,8 @@ func fpUnits(prop, tier string) []*Unit {
 		)
 		if prop == "C12" {
 			shapes = append(shapes, fpShape{name: "dir-attr", method: m, dirAttr: true}, fpShape{name: "with-broken-task", method: m, broken: true},
-				fpShape{name: "dir-attr-dynvar-precondition-status", method: m, dirAttr: true, dirSh: true}, fpShape{name: "deferred-command", method: m, deferCmd: true}, fpShape{name: "label-depends-on-call-variable", method: m, condLabel: true})
+				fpShape{name: "dir-attr-dynvar-precondition-status", method: m, dirAttr: true, dirSh: true}, fpShape{name: "deferred-command", method: m, deferCmd: true}, fpShape{name: "label-depends-on-call-variable", method: m, condLabel: true},
+				fpShape{name: "calls-a-task-that-fails-under-dry", method: m, guardCall: true})
 		} else {
 			shapes = append(shapes, fpShape{name: "dep", method: m, dep: true}, fpShape{name: "two-generates", method: m, generates: true, gen2: true},
 				fpShape{name: "twin-names-underscore-dash", method: m, twin: true}, fpShape{name: "sources-match-nothing", method: m, noMatch: true})
